@@ -827,6 +827,8 @@ struct Ev {
     /// while this event is being formatted and encoded on the emitting thread, one of its property values (its `Display`
     /// implementation logs) emits the next event through the same emitter
     reenter: bool,
+    /// the properties are built with `emit::props!` and include a key that is a Rust keyword written as a raw identifier
+    macro_raw: bool,
 }
 
 fn route(ev: &Ev, signals: &BTreeSet<Signal>) -> Option<Signal> {
@@ -891,6 +893,39 @@ fn emit_one(otlp: &emit_otlp::Otlp, ev: &Ev, n: u64, nested: Option<(&Ev, u64)>)
     let trace_id = emit::TraceId::from_u128(0x0123_4567_89ab_cdef_0123_4567_89ab_cdefu128 + n as u128).unwrap();
     let span_id = emit::SpanId::from_u64(0x0123_4567_89ab_cdefu64 + n).unwrap();
     let (trace_text, span_text) = (trace_id.to_string(), span_id.to_string());
+    // properties built by the macros are sorted at compile time and looked up by binary search: keys that are keywords
+    // (written `r#async`) sort by their plain name
+    if ev.macro_raw && !ev.shadow && nested.is_none() && ev.payload == 0 && ev.agg == Some("count") {
+        let tpl = emit::Template::literal("simulated event");
+        match (ev.kind, ev.mval) {
+            (Kind::Span, _) => {
+                let props = emit::props! {
+                    #[emit::as_value] marker: ev.marker.as_str(),
+                    evt_kind: "span",
+                    span_name: "sim span",
+                    #[emit::as_value] trace_id: trace_id,
+                    #[emit::as_value] span_id: span_id,
+                    r#async: true,
+                };
+                otlp.emit(&emit::Event::new(emit::path!("sim::otlp"), tpl, extent, props));
+                return;
+            }
+            (Kind::Metric, MVal::Number) => {
+                let props = emit::props! {
+                    #[emit::as_value] marker: ev.marker.as_str(),
+                    evt_kind: "metric",
+                    metric_name: "sim_metric",
+                    metric_agg: "count",
+                    metric_value: 42,
+                    r#async: true,
+                    service: "sim",
+                };
+                otlp.emit(&emit::Event::new(emit::path!("sim::otlp"), tpl, extent, props));
+                return;
+            }
+            _ => {}
+        }
+    }
     let reenter = nested.map(|(ev, n)| Reenter { otlp, ev, n, done: std::cell::Cell::new(false) });
     let mut props: Vec<(&str, emit::Value)> = vec![("marker", emit::Value::from(ev.marker.as_str()))];
     if !filler.is_empty() {
@@ -1088,8 +1123,10 @@ impl Engine for OtlpSim {
         // overflow mode (rare, expensive): one signal, its first request stalled until the client's timeout, and a burst
         // of more events than the channel's 10 000-item capacity behind it
         let overflow = !c14 && ch.chance(1, 120);
+        // (any one of the three signals: each has its own channel, and its own queue metrics under its own name)
+        let overflow_signal: u32 = if overflow { *ch.pick(&[1u32, 1, 2, 4]) } else { 0 };
         let subset: u32 = if overflow {
-            1
+            overflow_signal
         } else if c14 {
             ch.choose(8)
         } else {
@@ -1147,14 +1184,19 @@ impl Engine for OtlpSim {
             if overflow {
                 events.push(Ev {
                     marker: format!("MK{:06}KM", i + 1),
-                    kind: Kind::None,
-                    ext: Ext::Point,
+                    kind: match overflow_signal {
+                        2 => Kind::Span,
+                        4 => Kind::Metric,
+                        _ => Kind::None,
+                    },
+                    ext: if overflow_signal == 2 { Ext::Range } else { Ext::Point },
                     mval: MVal::Number,
                     agg: Some("count"),
                     payload: 0,
                     noisy: false,
                     shadow: false,
                     reenter: false,
+                    macro_raw: false,
                 });
                 continue;
             }
@@ -1215,6 +1257,7 @@ impl Engine for OtlpSim {
                 noisy,
                 shadow: c14 && ch.chance(1, 5),
                 reenter: !big && ch.chance(1, 10),
+                macro_raw: !big && ch.chance(1, 8),
             });
         }
         // client program
@@ -1393,15 +1436,20 @@ impl Engine for OtlpSim {
                                     let got: Mutex<(Option<u64>, Option<u64>)> = Mutex::new((None, None));
                                     otlp.metric_source().sample_metrics(emit::metric::sampler::from_fn(|m| {
                                         let v = m.value().to_string().parse::<u64>().ok();
-                                        if m.name() == "otlp_logs_queue_length" {
+                                        let sig = match overflow_signal {
+                                            2 => "traces",
+                                            4 => "metrics",
+                                            _ => "logs",
+                                        };
+                                        if m.name().get() == format!("otlp_{sig}_queue_length") {
                                             got.lock().unwrap().0 = v;
                                         }
-                                        if m.name() == "otlp_logs_queue_full_truncated" {
+                                        if m.name().get() == format!("otlp_{sig}_queue_full_truncated") {
                                             got.lock().unwrap().1 = v;
                                         }
                                     }));
                                     let g = *got.lock().unwrap();
-                                    sc.log(format!("burst of {} events emitted; otlp_logs_queue_length={:?} otlp_logs_queue_full_truncated={:?}", to - from, g.0, g.1));
+                                    sc.log(format!("burst of {} events emitted; the signal's queue_length={:?} queue_full_truncated={:?}", to - from, g.0, g.1));
                                     clog.lock().unwrap().after_burst = Some(g);
                                 }
                                 Step::Flush(ms) => {
